@@ -194,14 +194,17 @@ func (g *Gateway) handleLegacyProtocol(w http.ResponseWriter, r *http.Request, t
 		log.Printf("Opening RDGOUT for client %s", id.GetAttribute(identity.AttrClientIp))
 
 		t.transportOut = out
-		out.SendAccept(true)
 
+		// publish the tunnel before telling the client that the channel is open: the
+		// client sends its RDG_IN_DATA request as soon as it sees the acceptance
 		c.Set(t.RDGId, t, cache.DefaultExpiration)
+		out.SendAccept(true)
 	} else if r.Method == MethodRDGIN {
 		if t.transportOut == nil {
 			// the inbound channel is only meaningful for a tunnel whose outbound
 			// channel (RDG_OUT_DATA with the same connection id) exists
 			log.Printf("RDG_IN_DATA for %s without a matching RDG_OUT_DATA", t.RDGId)
+			w.Header().Set("Connection", "close") // do not wait for the (endless) request body
 			http.Error(w, "no matching RDG_OUT_DATA channel", http.StatusBadRequest)
 			return
 		}
